@@ -459,7 +459,7 @@ impl<'a> Model for TipModel<'a> {
 pub(crate) fn run(opts: &Opts, report: &mut Report) {
     let thorough = opts.thorough();
     // (peers, start, max depth)
-    let configs: Vec<(usize, u8, usize)> = if thorough { vec![(2, 1, 6), (2, 0, 6), (2, 2, 5), (3, 1, 5)] } else { vec![(2, 1, 3), (2, 0, 3), (2, 2, 3)] };
+    let configs: Vec<(usize, u8, usize)> = if thorough { vec![(2, 1, 5), (2, 0, 5), (2, 2, 5), (3, 1, 4)] } else { vec![(2, 1, 3), (2, 0, 3), (2, 2, 3)] };
     const SHARDS: usize = 16;
     let n_items = configs.len() * SHARDS;
     let worker = crate::verif::props::shard::run("C12", opts, report, n_items, 16, |item, report| {
@@ -540,7 +540,7 @@ pub(crate) fn run(opts: &Opts, report: &mut Report) {
     report.set("distinct_nontrivial", json!(s));
     report.set("traces_validated_against_impl", json!(report.get("replays")));
     report.set("rule", json!("state = event list replayed on the real client (store + peers + pending messages + world position + event budgets, fingerprinted); transitions = (state, enabled event) pairs executed; every state: invariants; every distinct state: honest continuation to convergence"));
-    report.set("bounds", json!({"depth": if thorough { "6 (2 peers), 5 (3 peers)" } else { "3" }, "budgets": "grow <= 3, forged <= 2, switch <= 2, tick <= 2, restart <= 1, duplicate <= 1", "roots": "sequences of length 2 dealt to 16 workers (a state reachable under two roots may be counted twice)"}));
+    report.set("bounds", json!({"depth": if thorough { "5 (2 peers), 4 (3 peers)" } else { "3" }, "budgets": "grow <= 3, forged <= 2, switch <= 2, tick <= 2, restart <= 1, duplicate <= 1", "roots": "sequences of length 2 dealt to 16 workers (a state reachable under two roots may be counted twice)"}));
     report.assume("dummy PoW: every re-sealed header is PoW-valid (an adversary can always mine one easy-target child)");
 }
 
